@@ -244,7 +244,11 @@ def model_build(prog, cfg, rep=1):
             ent.append(n)
         else:
             sb = model_build(e[2], cfg, e[1])
-            c.add_implicit(sb)
+            brel = e[4] if len(e) > 4 else None
+            if brel is None:
+                c.add_implicit(sb)
+            else:
+                c.add_explicit(sb, brel[0], ent[brel[1]])
             ent.append(sb)
     return c
 
